@@ -69,6 +69,88 @@ def cases(tier, seed):
             e = "convert"
         out.append({"stream": "random-wall", "fn": "create", "args": [name, W, f, r, e]})
         out.append({"stream": "zone-spec-random", "fn": "zone_probe", "args": [name, W // T.MEG - T.EPOCH_S, W // T.MEG]})
+    out += history_cases(tier, rnd, zs)
+    return out
+
+
+# ----------------------------------------------------------------------------- histories
+# A history is a list of operations applied one after the other to ONE value; the whole list is the case (the replay is self-contained).
+# set()/on()/at()/replace() take the fold from the instance, so what an earlier construction left on the instance decides the later one.
+#   origins     ["datetime", zone|None, W, fold|None, raise]   pendulum.datetime(fields[, tz=zone][, fold=fold][, raise_on_unknown_times])
+#               ["parse", W, zone|None]  ["parse_off", W, offset_s]  ["instance", W, fold, zone|None]  ["naive", W, fold|None]
+#               ["from_timestamp", n, zone|None]
+#   later steps ["set_tz", zone] ["replace_tzinfo", zone] ["set", W] ["replace", W] ["on", W] ["at", W] ["replace_fold", f]
+#               ["in_tz", zone] ["add", h, m, s, us] ["naive()"] ["replace_tzinfo_none"]
+# zone: IANA name or a fixed offset in seconds (int); None = the argument is omitted (UTC by default).  W: wall microseconds (the fields).
+FIXED_OFFS = [3600, -18000, 19800, 0, 34200, -12600]
+NO_OFFSET = 10 ** 6        # utcoffset() of a naive value in the canonical results
+
+
+def _shapes(Z, W, rnd, zs):
+    """Histories that end in a wall-clock construction of the wall time W in zone Z whose fold comes from the instance."""
+    day = T.US_DAY
+    Wd = W - 5 * day                                   # same time of day, another date
+    Wt = W // day * day + 12 * 3600 * T.MEG            # same date, noon
+    Wo = W - 5 * day - 3 * 3600 * T.MEG - 1            # unrelated fields
+    off = FIXED_OFFS[rnd.randrange(len(FIXED_OFFS))]
+    offp = [3600, -18000, 19800, 34200][rnd.randrange(4)]
+    Z2 = zs[rnd.randrange(len(zs))]
+    u = T.unix_of_wall(W)
+    fe = rnd.randrange(2)
+    retz = ["set_tz", "replace_tzinfo"]
+    setw = ["set", "replace"]
+    p = rnd.randrange(2)
+    return [
+        # a value built with every default (UTC), then read in the zone
+        ("default-utc", [["datetime", None, W, None, 0], [retz[p], Z]]),
+        ("default-utc", [["parse", W, None], [retz[1 - p], Z]]),
+        ("default-utc", [["from_timestamp", u, None], [retz[p], Z]]),
+        ("default-utc", [["datetime", None, Wo, None, 0], [setw[p], W], [retz[p], Z]]),
+        # explicit fold at the first construction
+        ("explicit-fold", [["datetime", "UTC", W, fe, 0], [retz[p], Z]]),
+        ("explicit-fold", [["instance", W, fe, None], [retz[p], Z]]),
+        ("explicit-fold", [["naive", W, None if fe else 0], [retz[p], Z]]),
+        ("explicit-fold", [["datetime", Z, Wo, fe, 0], [setw[p], W]]),
+        ("explicit-fold", [["datetime", None, W, None, 0], ["replace_fold", fe], [retz[p], Z]]),
+        # built in another zone (named or fixed offset), then read in the zone
+        ("other-zone", [["datetime", Z2, W, None, 0], [retz[p], Z]]),
+        ("other-zone", [["datetime", Z2, W, fe, 0], [retz[1 - p], Z]]),
+        ("fixed-offset", [["datetime", off, W, None, 0], [retz[p], Z]]),
+        ("fixed-offset", [["parse_off", W // T.MEG * T.MEG, offp], [retz[1 - p], Z]]),
+        ("fixed-offset", [["datetime", None, W, None, 0], ["set_tz", off], [retz[p], Z]]),
+        # two hops: the fold has to survive the re-interpretation as well
+        ("two-hops", [["datetime", None, Wd, None, 0], [retz[p], Z], ["on", W]]),
+        ("two-hops", [["datetime", None, Wt, None, 0], [retz[p], Z], ["at", W]]),
+        ("two-hops", [["parse", Wo // T.MEG * T.MEG, None], [retz[p], Z], [setw[1 - p], W]]),
+        ("two-hops", [["datetime", Z, W, fe, 0], [setw[p], Wo], [setw[1 - p], W]]),
+        # the tzinfo is dropped in between
+        ("drop-tz", [["datetime", None, W, None, 0], ["replace_tzinfo_none"], [retz[p], Z]]),
+        ("drop-tz", [["datetime", None, W, None, 0], ["naive()"], [retz[p], Z]]),
+        # values that denote an instant (conversion, fixed-unit arithmetic): the fold is the instant's
+        ("instant", [["datetime", None, Wo, None, 0], ["in_tz", Z], [setw[p], W]]),
+        ("instant", [["from_timestamp", u - 7200, Z], [setw[p], W]]),
+        ("instant", [["datetime", Z, Wo, fe, 0], ["add", 1, 2, 3, 4], [setw[p], W]]),
+        # the construction is repeated on its own result (idempotence on valid values; a shifted value carries fold 0)
+        ("again", [["datetime", Z, W, fe, 0], [retz[p], Z]]),
+        ("again", [["datetime", Z, W, fe, 0], [setw[p], W]]),
+    ]
+
+
+def history_cases(tier, rnd, zs):
+    out = []
+    k = 0
+    for name in zs:
+        trs = T.transition_probes(name, rnd, per_zone=None if tier == "thorough" else 30)
+        for (tt, o_pre, o_post) in trs:
+            pr = T.wall_probes(tt, o_pre, o_post)
+            for W in (pr[2], pr[4], pr[6], pr[7]):          # start, middle, end-1us, end (the first wall time outside)
+                if not (T.US_DAY * 9 < W < T.MAX_WALL - T.US_DAY * 9):
+                    continue
+                sh = _shapes(name, W, rnd, zs)
+                for j in range(3 if tier == "quick" else 5):
+                    kind, ops = sh[k % len(sh)]
+                    k += 7                                   # 7 is coprime to the number of shapes: every shape meets every probe position
+                    out.append({"stream": "history-" + kind, "fn": "hist", "args": [ops]})
     return out
 
 
@@ -99,6 +181,9 @@ def impl_run(cases):
                 d = (_dt.datetime(1970, 1, 1, tzinfo=_dt.timezone.utc) + _dt.timedelta(seconds=u)).astimezone(tz)
                 n0 = T.native(w * T.MEG, 0)
                 out.append([0, T.off_s(d), d.fold, T.off_s(n0.replace(tzinfo=tz)), T.off_s(n0.replace(tzinfo=tz, fold=1)), 1, 1])   # the last two: wf_zone / wf2_zone of the window are expected to hold
+                continue
+            if fn == "hist":
+                out.append(_impl_history(pendulum, a[0]))
                 continue
             spec, W, f, r, e = a
             tz = T.pzone(spec)
@@ -134,9 +219,311 @@ def impl_run(cases):
     return out
 
 
+def _iso(W, off=None):
+    y, mo, d, h, mi, s, us = T.fields_of(W)
+    t = f"{y:04d}-{mo:02d}-{d:02d}T{h:02d}:{mi:02d}:{s:02d}" + (f".{us:06d}" if us else "")
+    if off is not None:
+        t += ("-" if off < 0 else "+") + f"{abs(off) // 3600:02d}:{abs(off) // 60 % 60:02d}"
+    return t
+
+
+def _impl_history(pendulum, ops):
+    """[0, W1, f1, o1, .., Wn, fn, on] (the value after every step) or [1, exception, step]; [7, what, step] for a wrong type / zone."""
+    x, zone, res = None, None, [0]
+    for i, op in enumerate(ops):
+        try:
+            k = op[0]
+            if k == "datetime":
+                _, z, W, f, r = op
+                kw = {}
+                if z is not None:
+                    kw["tz"] = T.pzone(z)
+                if f is not None:
+                    kw["fold"] = f
+                if r:
+                    kw["raise_on_unknown_times"] = True
+                x, zone = pendulum.datetime(*T.fields_of(W), **kw), ("UTC" if z is None else z)
+            elif k == "parse":
+                _, W, z = op
+                x, zone = (pendulum.parse(_iso(W)) if z is None else pendulum.parse(_iso(W), tz=T.pzone(z))), ("UTC" if z is None else z)
+            elif k == "parse_off":
+                _, W, off = op
+                x, zone = pendulum.parse(_iso(W, off)), off
+            elif k == "instance":
+                _, W, f, z = op
+                n = T.native(W, f)
+                x, zone = (pendulum.instance(n) if z is None else pendulum.instance(n, tz=T.pzone(z))), ("UTC" if z is None else z)
+            elif k == "naive":
+                _, W, f = op
+                x, zone = (pendulum.naive(*T.fields_of(W)) if f is None else pendulum.naive(*T.fields_of(W), fold=f)), None
+            elif k == "from_timestamp":
+                _, n, z = op
+                x, zone = (pendulum.from_timestamp(n) if z is None else pendulum.from_timestamp(n, tz=T.pzone(z))), ("UTC" if z is None else z)
+            elif k == "set_tz":
+                x, zone = x.set(tz=T.pzone(op[1])), op[1]
+            elif k == "replace_tzinfo":
+                x, zone = x.replace(tzinfo=T.pzone(op[1])), op[1]
+            elif k == "set":
+                x = x.set(*T.fields_of(op[1]))
+            elif k == "replace":
+                y, mo, d, h, mi, s, us = T.fields_of(op[1])
+                x = x.replace(year=y, month=mo, day=d, hour=h, minute=mi, second=s, microsecond=us)
+            elif k == "on":
+                x = x.on(*T.fields_of(op[1])[:3])
+            elif k == "at":
+                x = x.at(*T.fields_of(op[1])[3:])
+            elif k == "replace_fold":
+                x = x.replace(fold=op[1])
+            elif k == "in_tz":
+                x, zone = x.in_timezone(T.pzone(op[1])), op[1]
+            elif k == "add":
+                x = x.add(hours=op[1], minutes=op[2], seconds=op[3], microseconds=op[4])
+            elif k == "naive()":
+                x, zone = x.naive(), None
+            elif k == "replace_tzinfo_none":
+                x, zone = x.replace(tzinfo=None), None
+            else:
+                return [9]
+        except Exception as ex:  # noqa
+            return T.exn_result(ex) + [i]
+        if not isinstance(x, pendulum.DateTime):
+            return [7, 1, i]
+        if (x.tzinfo is None) != (zone is None) or (zone is not None and x.timezone_name != T.pzone(zone).name):
+            return [7, 2, i]
+        o = T.off_s(x)
+        res += [T.wall_of(x), x.fold, NO_OFFSET if o is None else o]
+    return res
+
+
+# ----------------------------------------------------------------------------- the documented rules applied to a history (stdlib only)
+def _rule(spec, W, f, r, quirks=()):
+    """The construction rule of the property for the wall time W read in zone spec with fold f: (W', fold', offset, fold_is_observable) or
+    ("raise", code).  The value keeps the fold it was asked for unless it had to be moved (a moved value is an ordinary time, fold 0)."""
+    if spec is None:
+        return (W, f, NO_OFFSET, False)
+    if isinstance(spec, int):
+        return (W, 0 if "fixed" in quirks else f, spec, False)
+    tz = T.ref_zone(spec)
+    w = W // T.MEG
+    sols = T.solutions(tz, w)
+    if len(sols) == 1:
+        return (W, f, sols[0][1], False)
+    if len(sols) == 2:
+        if r:
+            return ("raise", T.EXN["AmbiguousTime"])
+        return (W, f, (sols[1] if f else sols[0])[1], True)
+    if len(sols) == 0:
+        if r:
+            return ("raise", T.EXN["NonExistingTime"])
+        g = T.gap_around(tz, w)
+        if g is None:
+            return ("oracle", f"could not locate the gap around wall second {w}")
+        tt, o_pre, o_post = g
+        gap = o_post - o_pre
+        return (W + gap * T.MEG, 0, o_post, False) if f else (W - gap * T.MEG, 0, o_pre, False)
+    return ("oracle", f"found {len(sols)} instants")
+
+
+def _ref_history(ops, quirks=()):
+    """Expected value after every step: list of (W, fold, offset, fold_is_observable) ending with ("raise", code) when a step has to raise.
+    State: zone spec (None = naive), wall, fold.  quirks: listed findings switched on (known() only), () = the property."""
+    exp, zone, W, f = [], None, 0, 0
+    day = T.US_DAY
+
+    def instant():
+        return W - T.off_s(T.native(W, f, T.ref_zone(zone))) * T.MEG
+
+    for op in ops:
+        k = op[0]
+        if k == "datetime":
+            zone = "UTC" if op[1] is None else op[1]
+            st = _rule(zone, op[2], 1 if op[3] is None else op[3], op[4], quirks)
+        elif k == "parse":
+            zone = "UTC" if op[2] is None else op[2]
+            st = _rule(zone, op[1], 1, 0, quirks)
+        elif k == "parse_off":
+            zone = op[2]
+            st = _rule(zone, op[1], 1, 0, quirks)
+        elif k == "instance":
+            zone = "UTC" if op[3] is None else op[3]
+            st = _rule(zone, op[1], op[2], 0, quirks)
+        elif k == "naive":
+            zone = None
+            st = (op[1], 1 if op[2] is None else op[2], NO_OFFSET, False)
+        elif k == "from_timestamp":
+            zone = "UTC" if op[2] is None else op[2]
+            U = T.EPOCH_US + op[1] * T.MEG
+            if zone == "UTC":
+                st = (U, 1, 0, False)            # built in UTC by the public constructor with its defaults
+            else:
+                w2, f2, o2 = T.ref_render(T.ref_zone(zone), U)
+                st = (w2, f2, o2, True)
+        elif k in ("set_tz", "replace_tzinfo"):
+            zone = op[1]
+            st = _rule(zone, W, f, 0, quirks)
+        elif k in ("set", "replace"):
+            st = _rule(zone, op[1], f, 0, quirks)
+        elif k == "on":
+            st = _rule(zone, op[1] // day * day + W % day, f, 0, quirks)
+        elif k == "at":
+            st = _rule(zone, W // day * day + op[1] % day, f, 0, quirks)
+        elif k == "replace_fold":
+            st = _rule(zone, W, op[1], 0, quirks)
+        elif k == "in_tz":
+            if zone is None:
+                st = ("oracle", "in_tz of a naive value is not generated")
+            elif op[1] == zone:
+                st = (W, f, T.off_s(T.native(W, f, T.ref_zone(zone))), False)
+            else:
+                U = instant()
+                zone = op[1]
+                w2, f2, o2 = T.ref_render(T.ref_zone(zone), U)
+                st = (w2, f2, o2, True)
+        elif k == "add":
+            if zone is None:
+                st = ("oracle", "add on a naive value is not generated")
+            else:
+                U = instant() + ((op[1] * 60 + op[2]) * 60 + op[3]) * T.MEG + op[4]
+                w2, f2, o2 = T.ref_render(T.ref_zone(zone), U)
+                st = (w2, f2, o2, True)
+        elif k == "naive()":
+            zone = None
+            st = (W, 0 if "naive()" in quirks else f, NO_OFFSET, False)
+        elif k == "replace_tzinfo_none":
+            zone = None
+            st = (W, f, NO_OFFSET, False)
+        else:
+            st = ("oracle", f"unknown operation {k}")
+        exp.append(st)
+        if st[0] in ("raise", "oracle"):
+            break
+        W, f = st[0], st[1]
+    return exp
+
+
+def _op_text(op):
+    k = op[0]
+    w = lambda W: "%04d-%02d-%02dT%02d:%02d:%02d.%06d" % T.fields_of(W)      # noqa
+    if k == "datetime":
+        return "datetime(%s%s%s%s)" % (w(op[2]), "" if op[1] is None else f", tz={op[1]}", "" if op[3] is None else f", fold={op[3]}", ", raise" if op[4] else "")
+    if k in ("parse", "naive", "set", "replace", "on", "at"):
+        return f"{k}({w(op[1])}" + (f", {op[2]}" if len(op) > 2 and op[2] is not None else "") + ")"
+    if k in ("parse_off", "instance"):
+        return f"{k}({w(op[1])}, " + ", ".join(str(x) for x in op[2:]) + ")"
+    return k + "(" + ", ".join(str(x) for x in op[1:]) + ")"
+
+
+def _hist_oracle(ops, r, quirks=()):
+    exp = _ref_history(ops, quirks)
+    txt = " . ".join(_op_text(o) for o in ops)
+    if r[0] not in (0, 1):
+        return f"history {txt}: unexpected result {r}"
+    got = [tuple(r[1 + 3 * i: 4 + 3 * i]) for i in range((len(r) - 1) // 3)] if r[0] == 0 else []
+    for i, st in enumerate(exp):
+        if st[0] == "oracle":
+            return f"history {txt}: step {i}: oracle {st[1]}"
+        if st[0] == "raise":
+            return None if r == [1, st[1], i] else f"history {txt}: step {i} {_op_text(ops[i])} has to raise exception code {st[1]}, got {r}"
+        if r[0] == 1 and r[2] == i:
+            return f"history {txt}: step {i} {_op_text(ops[i])} raised code {r[1]}, the rules give wall {T.fields_of(st[0])} offset {st[2]}"
+        if i >= len(got):
+            return f"history {txt}: no value for step {i} in {r}"
+        W, f, o = got[i]
+        if W != st[0] or o != st[2] or (st[3] and f != st[1]):
+            carried = "" if i == 0 else f" (the value carries fold {exp[i - 1][1]} from the steps before)"
+            return (f"history {txt}: step {i} {_op_text(ops[i])}: got wall {T.fields_of(W)} fold {f} offset {o}, the documented rules give wall "
+                    f"{T.fields_of(st[0])} fold {st[1]} offset {st[2]}{carried}")
+        if o != NO_OFFSET and ops[i][0] not in ("in_tz", "add"):
+            # valid local time: survives a round trip through UTC with identical fields and offset
+            zone = _zone_after(ops[:i + 1])
+            tz = T.ref_zone(zone)
+            nat = T.native(W, f, tz)
+            back = nat.astimezone(_dt.timezone.utc).astimezone(tz)
+            if T.wall_of(back) != W or T.off_s(back) != o or T.off_s(nat) != o:
+                return f"history {txt}: step {i}: wall {T.fields_of(W)} fold {f} does not survive a UTC round trip with identical fields/offset"
+    if r[0] == 0 and len(got) != len(exp):
+        return f"history {txt}: {len(got)} values for {len(exp)} steps"
+    return None
+
+
+def _zone_after(ops):
+    zone = None
+    for op in ops:
+        k = op[0]
+        if k == "datetime":
+            zone = "UTC" if op[1] is None else op[1]
+        elif k in ("parse", "from_timestamp"):
+            zone = "UTC" if op[2] is None else op[2]
+        elif k == "parse_off":
+            zone = op[2]
+        elif k == "instance":
+            zone = "UTC" if op[3] is None else op[3]
+        elif k in ("naive", "naive()", "replace_tzinfo_none"):
+            zone = None
+        elif k in ("set_tz", "replace_tzinfo", "in_tz"):
+            zone = op[1]
+    return zone
+
+
 # ----------------------------------------------------------------------------- model
+def _enc_zone(spec, W):
+    u = T.unix_of_wall(W)
+    return T.zone_enc(spec, u - 100000, u + 100000) + [1 if isinstance(spec, int) else 0]
+
+
+def _history_call(ops):
+    """The history in the wire format of Model/WallHistory.v (parse_op).  Zone windows are centred on the wall value the rules predict."""
+    exp = _ref_history(ops, ("fixed", "naive()"))
+    enc, W, zone = [], 0, None
+    for i, op in enumerate(ops):
+        k = op[0]
+        if k == "datetime":
+            zone = "UTC" if op[1] is None else op[1]
+            enc += [1] + _enc_zone(zone, op[2]) + [op[2], 1 if op[3] is None else op[3], op[4]]
+        elif k in ("parse", "parse_off"):
+            zone = op[2] if (k == "parse_off" or op[2] is not None) else "UTC"
+            enc += [1] + _enc_zone(zone, op[1]) + [op[1], 1, 0]
+        elif k == "instance":
+            zone = "UTC" if op[3] is None else op[3]
+            enc += [1] + _enc_zone(zone, op[1]) + [op[1], op[2], 0]
+        elif k == "naive":
+            zone = None
+            enc += [2, op[1], 1 if op[2] is None else op[2]]
+        elif k == "from_timestamp":
+            zone = "UTC" if op[2] is None else op[2]
+            enc += [3] + _enc_zone(zone, T.EPOCH_US + op[1] * T.MEG) + [1 if zone == "UTC" else 0, op[1]]
+        elif k in ("set_tz", "replace_tzinfo"):
+            zone = op[1]
+            enc += [4] + _enc_zone(zone, W)
+        elif k in ("set", "replace"):
+            enc += [5, op[1]]
+        elif k == "on":
+            enc += [6, op[1] // T.US_DAY]
+        elif k == "at":
+            enc += [7, op[1] % T.US_DAY]
+        elif k == "replace_fold":
+            enc += [8, op[1]]
+        elif k == "in_tz":
+            same = 1 if op[1] == zone else 0
+            zone = op[1]
+            enc += [9] + _enc_zone(zone, W) + [same]
+        elif k == "add":
+            enc += [10] + list(op[1:5])
+        elif k == "naive()":
+            zone = None
+            enc += [11]
+        elif k == "replace_tzinfo_none":
+            zone = None
+            enc += [12]
+        if i < len(exp) and exp[i][0] not in ("raise", "oracle"):
+            W = exp[i][0]
+    return enc
+
+
 def model_calls(c, backend):
     fn, a = c["fn"], c["args"]
+    if fn == "hist":
+        return [("hist", _history_call(a[0]))]
     if fn == "zone_probe":
         name, u, w = a
         lo, hi = min(u, w - T.EPOCH_S) - 90000, max(u, w - T.EPOCH_S) + 90000
@@ -164,6 +551,8 @@ def oracle(c, backend, r):
     fn, a = c["fn"], c["args"]
     if fn == "zone_probe":
         return None
+    if fn == "hist":
+        return _hist_oracle(a[0], r)
     spec, W, f, rz, e = a
     if e in ("tzdatetime", "parse"):
         f, rz = 1, 0
@@ -212,6 +601,17 @@ def oracle(c, backend, r):
 
 
 def known(c, backend, r):
+    """A failing history is a listed finding exactly when (a) it contains the operation the finding is about, (b) the result is the one the
+    documented rules give once that operation's loss of the fold is taken for granted, and (c) nothing else is wrong with it."""
+    if c["fn"] != "hist":
+        return None
+    ops = c["args"][0]
+    fixed = any((o[0] in ("datetime", "set_tz", "replace_tzinfo") and isinstance(o[1], int)) or o[0] == "parse_off" or
+                (o[0] == "instance" and isinstance(o[3], int)) for o in ops)
+    if fixed and _hist_oracle(ops, r, ("fixed",)) is None:
+        return "fixed-offset-drops-fold"
+    if any(o[0] == "naive()" for o in ops) and _hist_oracle(ops, r, ("naive()",)) is None:
+        return "naive-method-drops-fold"
     return None
 
 
